@@ -988,6 +988,14 @@ func (cmd commandStor) Execute(conn *Conn, param string) {
 	}()
 
 	bytes, err := conn.driver.PutFile(param, conn.dataConn, conn.appendData)
+
+	// a data connection serves one transfer; left open, every further upload command of the
+	// session would wait on it again
+	if conn.dataConn != nil {
+		conn.dataConn.Close()
+		conn.dataConn = nil
+	}
+
 	if err == nil {
 		msg := "OK, received " + strconv.Itoa(int(bytes)) + " bytes"
 		conn.writeMessage(226, msg)
